@@ -18,21 +18,30 @@ TokName(i) == IF i = 1 THEN "was expecting \"c\"" ELSE IF i = 2 THEN "was expect
 \* trims then leaves a non-fatal "was expecting x" behind the token, further to the right than a whitespace error of the
 \* left trim) and Choice(t) otherwise.  Nodes of token i: 6i-5 term t, 6i-4 term x, 6i-3 SeqOf(t, x), 6i-2 the Choice,
 \* 6i-1 ltrim, 6i rtrim; then End; then the root SeqOf
-GrammarOf(k, l, r, sfx) ==
+GrammarOf(k, l, r, form) ==
   [n \in 1..(6 * k + 2) |->
      IF n = 6 * k + 1 THEN Nd("end", "", <<>>, 0, "")
      ELSE IF n = 6 * k + 2 THEN Nd("seq", "of", [j \in 1..(k + 1) |-> IF j <= k THEN 6 * j ELSE 6 * k + 1], 0, "")
      ELSE LET i == (n + 5) \div 6 IN
-          CASE n % 6 = 1 -> Nd("term", "", <<>>, TokByte(i), TokName(i))
-            [] n % 6 = 2 -> Nd("term", "", <<>>, 120, "was expecting \"x\"")
-            [] n % 6 = 3 -> Nd("seq", "of", <<n - 2, n - 1>>, 0, "")
-            [] n % 6 = 4 -> Nd("choice", "", IF sfx THEN <<n - 1, n - 3>> ELSE <<n - 3>>, 0, "")
-            [] n % 6 = 5 -> Nd("ltrim", l[i], <<n - 1>>, 0, "")
-            [] OTHER -> Nd("rtrim", r[i], <<n - 1>>, 0, "")]
+          IF form = 2
+          THEN \* the left trims INSIDE the Choice: Choice(LeftTrim(t), LeftTrim(x)) - a whitespace error of the first alternative
+               \* sits at the Choice's own position and must not be mistaken for "this alternative is not there"
+               CASE n % 6 = 1 -> Nd("term", "", <<>>, TokByte(i), TokName(i))
+                 [] n % 6 = 2 -> Nd("term", "", <<>>, 120, "was expecting \"x\"")
+                 [] n % 6 = 3 -> Nd("ltrim", l[i], <<n - 2>>, 0, "")
+                 [] n % 6 = 4 -> Nd("ltrim", l[i], <<n - 2>>, 0, "")
+                 [] n % 6 = 5 -> Nd("choice", "", <<n - 2, n - 1>>, 0, "")
+                 [] OTHER -> Nd("rtrim", r[i], <<n - 1>>, 0, "")
+          ELSE CASE n % 6 = 1 -> Nd("term", "", <<>>, TokByte(i), TokName(i))
+                 [] n % 6 = 2 -> Nd("term", "", <<>>, 120, "was expecting \"x\"")
+                 [] n % 6 = 3 -> Nd("seq", "of", <<n - 2, n - 1>>, 0, "")
+                 [] n % 6 = 4 -> Nd("choice", "", IF form = 1 THEN <<n - 1, n - 3>> ELSE <<n - 3>>, 0, "")
+                 [] n % 6 = 5 -> Nd("ltrim", l[i], <<n - 1>>, 0, "")
+                 [] OTHER -> Nd("rtrim", r[i], <<n - 1>>, 0, "")]
 
 ModeSet == {"none", "spaces", "nl", "forcenl"}
 GapStrings == UNION {[1..n -> GapAlphabet] : n \in 0..GapLen}
-Cases == {<<g, l, r, x>> : g \in [1..(NTok + 1) -> GapStrings], l \in [1..NTok -> ModeSet], r \in [1..NTok -> ModeSet], x \in BOOLEAN}
+Cases == {<<g, l, r, x>> : g \in [1..(NTok + 1) -> GapStrings], l \in [1..NTok -> ModeSet], r \in [1..NTok -> ModeSet], x \in {0, 1, 2}}
 CaseSeq == SetToSeq(Cases)
 Chosen == {CaseSeq[i] : i \in {j \in 1..Len(CaseSeq) : j % NSlices = Slice}}
 
